@@ -448,18 +448,21 @@ func scenarioList() []scenario {
 				if _, err := s.p.SendF(cf); err != nil {
 					return err
 				}
-				s.act("P %s ; D", cf.M())
-				// current code: the waiter takes the control response and returns (nil, nil).
-				// repaired code: it keeps waiting; give it the real reply.
+				// the registry is data-only for a data transaction: the control response is a miss,
+				// answered Reject(TransactionNotOpen); the sender is untouched
+				s.act("P %s ; D ; Q1", cf.M())
+				rj, ok := s.p.Wait(3*time.Second, func(f sc.Frame) bool { return f.ST == 7 }, nil)
+				if !ok || rj.B3 != 3 || rj.Sys != prim.Sys || rj.B2 != st {
+					s.bad = "a control response reusing an open data transaction's system bytes was not answered with Reject(reason 3) echoing its SType and system bytes"
+				}
 				select {
 				case res := <-done:
 					done <- res
-					s.act("G 1 chan ; G 1 go")
 					s.bad = fmt.Sprintf("the reply-expected send returned %q on a control response reusing its system bytes, before the peer's reply", strings.Fields(res)[0])
+					s.act("G 1 chan ; G 1 go")
 					return nil
-				case <-time.After(20 * time.Millisecond):
+				case <-time.After(5 * time.Millisecond):
 				}
-				s.act("G 1 chan")
 				if err := reply(s, prim, prim.B2&0x7F, prim.B3+1); err != nil {
 					return err
 				}
